@@ -471,7 +471,7 @@ func dispatch(op string, a []val) string {
 	case "mul":
 		return kP(babyjub.NewPoint().Mul(a[0].i, mkPoint(a[1].i, a[2].i)))
 	case "mulrecv": // receiver and returned value
-		p := babyjub.NewPoint()
+		p := mkPoint(babyjub.B8.X, babyjub.B8.Y) // a receiver that already holds a point
 		r := p.Mul(a[0].i, mkPoint(a[1].i, a[2].i))
 		return pt(p) + " " + pt(r)
 	case "mulalias": // q.Mul(s, q)
